@@ -7,7 +7,7 @@ EXPLANATION = ('Symbolic sequences of guard operations (acquire, acquire_if_equa
                'match) after every step including after exceptions, K fresh guards acquirable after releasing everything.')
 ASSUMPTIONS = ['protection by a published slot is taken as the representation invariant here; that scans honour published slots is C01',
                'hazard_eras: the era clock is advanced directly (as a retirement in another thread would)']
-TIMEOUT = {'quick': 400, 'thorough': 2400}
+TIMEOUT = {'quick': 900, 'thorough': 2400}
 SRC = 'C18/slots.cpp'
 NAMES = {1: 'hp-static', 2: 'hp-dynamic', 3: 'he-static', 4: 'he-dynamic'}
 
@@ -19,6 +19,9 @@ def scenarios(tier):
         s.append(Scenario('%s-K2-full-prefix-n2' % NAMES[r], SRC, ['RECL=%d' % r, 'HPK=2', 'NOPS=2', 'PREFIX_FULL', 'SYM_INDEX'], unwind=4, cover=[1, 2, 3]))
     s.append(Scenario('hp-static-K1-rot-n3', SRC, ['RECL=1', 'HPK=1', 'NOPS=3'], unwind=4, cover=[1, 2, 3]))
     s.append(Scenario('hp-dynamic-K1-rot-n3', SRC, ['RECL=2', 'HPK=1', 'NOPS=3', 'DYNAMIC'], unwind=4, cover=[1, 3]))
+    # deterministic growth instances of the dynamic strategy (third/fourth slot = second heap block): decided by constant folding
+    s.append(Scenario('he-dynamic-K1-growth-fixed', SRC, ['RECL=4', 'HPK=1', 'NOPS=3', 'PREFIX_FULL', 'DYNAMIC', 'FIXOPS={{0,0,0},{5,0,0},{0,1,1}}'], unwind=4, cover=[1, 3]))
+    s.append(Scenario('hp-dynamic-K1-growth-fixed', SRC, ['RECL=2', 'HPK=1', 'NOPS=3', 'PREFIX_FULL', 'DYNAMIC', 'FIXOPS={{0,2,1},{2,0,1},{0,1,1}}'], unwind=4, cover=[1, 3]))
     if tier == 'thorough':
         for r in (1, 3):
             s.append(Scenario('%s-K2-rot-n4' % NAMES[r], SRC, ['RECL=%d' % r, 'HPK=2', 'NOPS=4'], unwind=4, cover=[1, 3]))
